@@ -65,6 +65,7 @@ type llRun struct {
 	guard    *Term // non-nil while a side block is executed speculatively
 	undo     []llUndo
 	nSpec    int
+	specPure bool // only merge side blocks without stores
 	// comparisons of packet pointers against the end pointer, by the Bool term they produced
 	lenCmps map[*Term]llLenCmp
 }
@@ -561,6 +562,9 @@ func (r *llRun) writeAcc(a llAcc, bytes []*Term) {
 	n := len(bytes)
 	if r.guard != nil {
 		// speculative side block: conditional write, logged for undo
+		if r.specPure {
+			panic(llSpecAbort{"store under guard (pure mode)"})
+		}
 		if a.sym != nil {
 			panic(llSpecAbort{"symbolic-offset store under guard"})
 		}
@@ -1638,15 +1642,21 @@ func (in *Interp) RunBPF(prog, entry string, kind string, env *LLEnv) (res *BPFR
 	if lerr != nil {
 		panic(unsupported("llir: " + lerr.Error()))
 	}
-	r := &llRun{in: in, mod: mod, env: env, kind: kind, globals: map[string]*LLObj{}, specMode: 1}
-	switch os.Getenv("VERIF_LLIR_SPEC") {
+	r := &llRun{in: in, mod: mod, env: env, kind: kind, globals: map[string]*LLObj{}, specMode: 1, specPure: true}
+	mode := os.Getenv("VERIF_LLIR_SPEC")
+	if env != nil && env.IfConversion != "" {
+		mode = env.IfConversion
+	}
+	switch mode {
+	case "", "pure":
 	case "off":
 		r.specMode = 0
-	case "force":
-		r.specMode = 2
-	}
-	if env != nil && env.NoIfConversion {
-		r.specMode = 0
+	case "full":
+		r.specPure = false
+	case "force": // testing: also for concrete conditions
+		r.specMode, r.specPure = 2, false
+	default:
+		panic(unsupported("llir: unknown if-conversion mode " + mode))
 	}
 	defer func() {
 		if rec := recover(); rec != nil {
